@@ -117,12 +117,42 @@ def short_sequences(tier, seed, mode, classes, hostile=False):
                 out.append(G.case("sq-%s-%s-%d" % (cls, label, len(out)), cls, mode, pre + list(seq)))
     return out
 
+CALLBACK_SEQS = [
+    ["clear v0"], ["truncate v0 1"], ["truncate v0 0", "push v0 1"], ["dedup v0"], ["dedup_by v0 mod2=0"], ["dedup_by v0 seqFTFTFT"],
+    ["dedup_by_key v0 kmod2"], ["retain v0 mod2=0"], ["retain v0 seqTFTFTF"], ["remove_item v0 2"], ["remove_item v0 99"],
+    ["resize v0 7 5"], ["resize v0 1 5"], ["resize_with v0 7 g[1,2,3,4,5,6,7]"], ["extend v0 it[7,8,9]"], ["extend_from_slice v0 7 8 9"],
+    ["extend_from_within v0 U U"], ["extend_from_within v0 I1 E2"], ["clone v0 c"], ["from_slice c 1 2 3"], ["collect c it[1,2,3,4,5]"],
+    ["macro_repeat c 5 3"], ["macro_list c 1 2 3"], ["insert v0 99 5"], ["insert v0 0 5"], ["push v0 5"],
+    ["drain v0 U U it", "drop it"], ["drain v0 I1 E3 it", "next it", "drop it"], ["drain v0 I0 E2 it", "next_back it", "drop it"],
+    ["splice v0 I1 E2 it[7,8,9] it", "drop it"], ["splice v0 I0 E3 it[7] it", "drop it"], ["splice v0 U U it[] it", "next it", "drop it"],
+    ["splice v0 I1 E1 it[7,8] it", "drop it"],
+    ["drain_filter v0 mod2=1 it", "drop it"], ["drain_filter v0 mod2=0 it", "next it", "drop it"], ["drain_filter v0 seqTFTF it", "next it", "next it", "drop it"],
+    ["into_iter v0 it", "drop it"], ["into_iter v0 it", "next it", "next_back it", "drop it"], ["into_iter v0 it", "next it", "clone_iter it j", "drop j", "drop it"],
+    ["drop v0"], ["split_off v0 1 c", "drop c"], ["macro_list c 8 9", "append v0 c", "drop c"],
+    ["deserialize c 2 sq[1,2,3]"], ["deserialize c N sq[1,E]"], ["deserialize_in_place v0 N sq[7,8]"], ["deserialize_in_place v0 9 sq[7,8,9,10,11]"],
+    ["compare v0 v0"],
+]
+
 def panic_sweep(tier, seed, mode):
-    base = short_sequences(tier, seed, mode, ["w4", "s16", "b1"])
+    """every callback-bearing operation x storage state x element class, re-run with the k-th callback
+    invocation panicking, then a fixed probe (read all, push, pop, clone, drop)"""
     out = []
-    ks = range(1, 9) if tier == "quick" else range(1, 25)
-    for k in ks:
-        out += rename(with_directive(base, "!panic_at %d" % k), "-p%d" % k)
+    classes = ["w4", "s16", "b1"] if tier == "quick" else ["w4", "s16", "b1", "a32", "big"]
+    ks = range(1, 10) if tier == "quick" else range(1, 26)
+    probe = ["push v0 77", "pop v0", "clone v0 probe", "drop probe"]
+    n = 0
+    for cls in classes:
+        for label, pre in G.start_states(cls):
+            if label in ("sentinel", "zero", "empty", "over64zero"):
+                continue
+            for seq in CALLBACK_SEQS:
+                for k in ks:
+                    out.append(G.case("pn-%s-%s-%d-p%d" % (cls, label, n, k), cls, mode, pre + list(seq) + probe, ["!panic_at %d" % k]))
+                n += 1
+    if tier != "quick":
+        base = short_sequences(tier, seed, mode, ["w4", "s16", "b1"])
+        for k in range(1, 13):
+            out += rename(with_directive(base, "!panic_at %d" % k), "-p%d" % k)
     return out
 
 def allocfail_sweep(tier, seed, mode):
@@ -256,6 +286,14 @@ def align_cases(tier, seed, mode):
                     out.append(G.case("al-%s-%d" % (cls, k), cls, mode, ["with_alignment v0 %d %d" % (n, a)] + h)); k += 1
     return out
 
+def growth_cases(mode):
+    """n successive pushes (through extend) for each element size class; big: > 1 MiB of storage"""
+    out = []
+    for cls, n in (("big", 4100), ("s16", 3000), ("w4", 3000), ("b1", 200)):
+        items = ",".join(str(i % 7) for i in range(n))
+        out.append(G.case("grow-%s" % cls, cls, mode, ["new v0", "extend v0 it[%s]" % items, "spare v0"]))
+    return out
+
 def general(tier, seed, pid, modes=("debug",)):
     return [(m, corpus(m, pid) + general_cases(tier, seed, m)) for m in modes]
 
@@ -284,8 +322,8 @@ PROPS = {
             "cases": lambda tier, seed: [("debug", corpus("debug", "C06") + sentinel_sweep("debug")), ("release", corpus("release", "C06") + sentinel_sweep("release"))],
             "owned_oracles": ["X signal", "O ledger", "O alloc", "O vec-mismatch"], "owned_diffs": ["result", "contents", "panic", "alloc", "own", "ub", "crash", "cap"]},
     "C07": {"modules": ["MiniVecProof.Props.C07", "MiniVecProof.Props.C01"],
-            "cases": lambda tier, seed: general(tier, seed, "C07", modes=("debug", "release")),
-            "owned_oracles": ["O cap", "reserve-contract", "stable"], "owned_diffs": ["cap", "alloc"],
+            "cases": lambda tier, seed: [(m, c + growth_cases(m)) for m, c in general(tier, seed, "C07", modes=("debug", "release"))],
+            "owned_oracles": ["O cap", "reserve-contract", "stable", "log-resizes"], "owned_diffs": ["cap", "alloc"],
             "partial_missing": ["storage stability proved for pop, truncate, clear (block and capacity unchanged in their specs); other operations by correspondence"]},
     "C08": {"modules": ["MiniVecProof.Props.C08"],
             "cases": lambda tier, seed: [("debug", corpus("debug", "C08") + align_cases(tier, seed, "debug")), ("release", align_cases(tier, seed, "release"))],
